@@ -62,6 +62,18 @@ def impl(case):
         with responses.RequestsMock(assert_all_requests_are_fired=False) as rsps:
             rsps.add_callback(responses.GET, URL, callback=data_cb)
             rsps.add_callback(responses.GET, URL + '.md5', callback=sum_cb)
+            head = case.get('head', 'none')
+            if head != 'none':
+                # how the server answers the size probe (HEAD); 'none' = not answered at all
+                def head_cb(request):
+                    log.append('head')
+                    if head in ('403', '501'):
+                        return (int(head), {}, b'')
+                    n = len(bodies[1])
+                    hdr = {'ok': {'Content-Length': str(n)}, 'ok_nolen': {},
+                           'short_len': {'Content-Length': str(n // 3)}, 'long_len': {'Content-Length': str(n * 5)}}[head]
+                    return (200, hdr, b'')
+                rsps.add_callback(responses.HEAD, URL, callback=head_cb)
             try:
                 ret = DS.download_file(URL, path)
                 result = 'skipped' if ret is not None else 'done'
@@ -77,7 +89,9 @@ def impl(case):
     if content is not None:
         tok = [k for k, v in bodies.items() if v == content]
         tok = tok[0] if tok else -1
-    return dict(result=result, file=tok, log=log,
+    n_head = log.count('head')
+    log = [x for x in log if x != 'head']
+    return dict(result=result, file=tok, log=log, n_head=n_head,
                 file_md5=hashlib.md5(content).hexdigest() if content is not None else None,
                 md5={str(k): v for k, v in md5.items()})
 
@@ -127,6 +141,7 @@ def tally(rep, case, impl_res, ans):
     if 'ok' in impl_res:
         rep.count('result:' + impl_res['ok']['result'])
         rep.count('data_requests:%d' % impl_res['ok']['log'].count('data'))
+    rep.count('size_probe(HEAD):%s' % case.get('head', 'none'))
     rep.count('prior:%s' % case['prior'])
     rep.count('body:' + case.get('body', 'normal'))
 
@@ -149,6 +164,8 @@ def shrink(case):
 def gen(tier, rng):
     q = tier == 'quick'
     L = 3 if q else 4
+    HEADS = ['none', 'ok', '403', 'ok_nolen', '501', 'short_len', 'long_len']
+    k = 0
     for prior in (None, 1, 2):
         for ld in range(0, L + 1):
             for ds in itertools.product([1, 2, 0], repeat=ld):
@@ -156,9 +173,14 @@ def gen(tier, rng):
                     for ss in itertools.product([1, 2, 9, 0], repeat=ls):
                         if q and ld == 3 and ls == 3 and (hash((ds, ss)) % 3):
                             continue
-                        yield dict(p=PID, prior=prior, ds=list(ds), ss=list(ss))
+                        k += 1
+                        yield dict(p=PID, prior=prior, ds=list(ds), ss=list(ss), head=HEADS[k % 7])
+                        if not q and ld <= 3:
+                            yield dict(p=PID, prior=prior, ds=list(ds), ss=list(ss), head=HEADS[(k + 3) % 7])
     for body in ('empty', 'one', 'big'):
         for prior in (None, 1, 2):
             for ds in itertools.product([1, 2, 0], repeat=2):
                 for ss in itertools.product([1, 2, 0], repeat=2 if q else 3):
-                    yield dict(p=PID, prior=prior, ds=list(ds), ss=list(ss), body=body, with_name=bool(len(ss) % 2))
+                    k += 1
+                    yield dict(p=PID, prior=prior, ds=list(ds), ss=list(ss), body=body, with_name=bool(len(ss) % 2),
+                               head=HEADS[k % 7])
